@@ -216,4 +216,11 @@ theorem sqrtPrecomp_eq (v : Fp) :
 /-- the constants the translation depends on, and what was translated -/
 theorem coverage : sqrtParam_TotalBits = 32 ∧ sqrtParam_Blocks * sqrtParam_BlockSize = 32 := by decide
 
+/-- the table construction in `init()` — the dyadic roots by repeated squaring from the hard-coded `2^32`-th
+root (with the `-1` check), the reconstruction root `roots[32 − 8]`, the blocks `blocks[i][j] = blocks[i][j−1]·roots[8i]`
+from `blocks[i][0] = 1`, the look-up table `key(g₈^i) ↦ (−i) & 255` — is not translated; the model's `dyadicRoots`,
+`precompBlock`, `dlogLUT` mirror exactly these statements (and `C17.G_primitive`, `lut_keys_distinct`,
+`lut_values` are about them); any edit is a broken obligation. -/
+theorem init_shape : Gen.SqrtFp.initBody = ["sqrtPrecomp_PrimitiveDyadicRoots = func() (ret [BaseField2Adicity + 1]feType_SquareRoot) { if _, err := ret[0].SetString(\"10238227357739495823651030575849232062558860180284477541189508159991286009131\"); err != nil { panic(err) } for i := 1; i <= BaseField2Adicity; i++ { ret[i].Square(&ret[i-1]) } x := big.NewInt(0) ret[BaseField2Adicity-1].BigInt(x) if ret[BaseField2Adicity-1].String() != \"-1\" { panic(\"something is wrong with the dyadic roots of unity\") } return }()", "sqrtPrecomp_ReconstructionDyadicRoot = sqrtPrecomp_PrimitiveDyadicRoots[BaseField2Adicity-sqrtParam_BlockSize]", "sqrtPrecomp_PrecomputedBlocks = func() (blocks [sqrtParam_Blocks][1 << sqrtParam_BlockSize]feType_SquareRoot) { for i := 0; i < sqrtParam_Blocks; i++ { blocks[i][0].SetOne() for j := 1; j < (1 << sqrtParam_BlockSize); j++ { blocks[i][j].Mul(&blocks[i][j-1], &sqrtPrecomp_PrimitiveDyadicRoots[i*sqrtParam_BlockSize]) } } return }()", "sqrtPrecomp_dlogLUT = func() (ret map[uint16]uint) { const LUTSize = 1 << sqrtParam_BlockSize ret = make(map[uint16]uint, LUTSize) var rootOfUnity feType_SquareRoot rootOfUnity.SetOne() for i := 0; i < LUTSize; i++ { const mask = LUTSize - 1 ret[uint16(rootOfUnity[0]&0xFFFF)] = uint((-i) & mask) rootOfUnity.Mul(&rootOfUnity, &sqrtPrecomp_ReconstructionDyadicRoot) } if len(ret) != LUTSize { panic(\"failed to store all appropriate roots of unity in a map\") } return }()"] := rfl
+
 end GoIpa.Tie.SqrtFp
